@@ -212,7 +212,7 @@ def concurrent(dc, sc, res, rng, label):
             return cache.get(args[0], 'MISS', retry=True)
         return getattr(cache, op)(*args, retry=True, **kw)
 
-    strategy = gen.pick(rng, ['random', 'random', 'preempt', 'preempt', 'roundrobin'])
+    strategy = gen.pick(rng, ['random', 'random', 'preempt', 'preempt', 'roundrobin', 'ops'])
     sch = Sched(rng, clock, strategy=strategy, preempt_points={rng.randrange(0, 60) for _ in range(rng.randrange(1, 4))})
     rec = Recorder(sch)
 
